@@ -390,8 +390,8 @@ Proof.
       destruct Hcase as [[Hm [Ho Hdata]] | [Hno Hdata]].
       * rewrite Hm, Ho, Hdata. destruct (deque (y_sh (e_sys e))) as [| d rest]; cbn [hd].
         -- reflexivity.
-        -- rewrite Nat.ltb_irrefl. reflexivity.
-      * rewrite Hdata. destruct (t_meth tk) eqn:Em; try reflexivity.
+        -- rewrite Nat.ltb_irrefl. cbn [concat]. rewrite app_nil_r. reflexivity.
+      * rewrite Hdata, app_nil_r. cbn [app]. destruct (t_meth tk) eqn:Em; try reflexivity.
         destruct o; try reflexivity. exfalso. exact (Hno eq_refl v eq_refl).
     + cbn [delta a_wdelta] in Hf. rewrite Hf, Hwd. reflexivity.
   - destruct (pump_step_spec _ _ _ _ _ _ _ _ _ _ _ H) as [tk [Hn Hspec]].
@@ -407,6 +407,143 @@ Proof.
     destruct Hspec as [_ [Hw [_ [Hd [Hf _]]]]]; [intros x Hx; discriminate |].
     exists [], []. rewrite Hd, deque_after_not_ssl by (intros x Hx; discriminate).
     cbn [delta] in Hf. rewrite Hf, Hw, !app_nil_r. auto.
+Qed.
+
+Definition no_unwrap (e : endpoint) : Prop := Forall (fun m => m <> MUnwrap) (ep_meths e).
+
+Lemma no_unwrap_step : forall e nin nout l e' nin' nout',
+  ep_step E D M e nin nout l = Some (e', nin', nout') -> no_unwrap e -> no_unwrap e'.
+Proof.
+  intros e nin nout l e' nin' nout' H Hu. unfold no_unwrap in *.
+  destruct l as [m n data | t | t | t | t k]; cbn [ep_step] in H.
+  - destruct m; try discriminate; unfold pump in H; cbn [sys_step apply_acts] in H; inversion H; subst;
+      unfold ep_meths in *; cbn [e_sys y_tasks]; rewrite map_app; apply Forall_app; (split; [exact Hu |]);
+      constructor; try constructor; cbn; discriminate.
+  - destruct (nth_error (y_tasks (e_sys e)) t) as [tk |] eqn:Hn; try discriminate.
+    destruct (call E D M _ _ _ _) as [[i' o] wd].
+    destruct (pump_step_spec _ _ _ _ _ _ _ _ _ _ _ H) as [tk' [Hn' Hspec]].
+    destruct Hspec as [_ [_ [_ [_ [_ [_ [_ [Hm _]]]]]]]].
+    { intros x Hx. rewrite Hn in Hn'. inversion Hn'; subst. inversion Hx; subst. cbn. auto. }
+    rewrite Hm. exact Hu.
+  - destruct (pump_step_spec _ _ _ _ _ _ _ _ _ _ _ H) as [tk [Hn Hspec]].
+    destruct Hspec as [_ [_ [_ [_ [_ [_ [_ [Hm _]]]]]]]]; [intros x Hx; discriminate |]. rewrite Hm. exact Hu.
+  - destruct (pump_step_spec _ _ _ _ _ _ _ _ _ _ _ H) as [tk [Hn Hspec]].
+    destruct Hspec as [_ [_ [_ [_ [_ [_ [_ [Hm _]]]]]]]]; [intros x Hx; discriminate |]. rewrite Hm. exact Hu.
+  - destruct (Nat.leb 1 k && Nat.leb k (length nin)); try discriminate.
+    destruct (pump_step_spec _ _ _ _ _ _ _ _ _ _ _ H) as [tk [Hn Hspec]].
+    destruct Hspec as [_ [_ [_ [_ [_ [_ [_ [Hm _]]]]]]]]; [intros x Hx; discriminate |]. rewrite Hm. exact Hu.
+Qed.
+
+(* RECEIVER role of a transition: bytes move from the network into the incoming BIO, or whole records are consumed
+   from the head of the incoming stream and their plaintext is returned / kept decrypted *)
+Lemma receiver_step : forall e nin nout l e' nin' nout' tail recs,
+  no_unwrap e ->
+  ep_step E D M e nin nout l = Some (e', nin', nout') ->
+  i_rbio (e_ideal e) ++ nin ++ tail = encs recs ->
+  exists recs', i_rbio (e_ideal e') ++ nin' ++ tail = encs recs' /\
+    e_got e' ++ i_plain (e_ideal e') ++ data_of recs' = e_got e ++ i_plain (e_ideal e) ++ data_of recs.
+Proof.
+  intros e nin nout l e' nin' nout' tail recs Hu H Hs.
+  destruct l as [m n data | t | t | t | t k]; cbn [ep_step] in H.
+  - destruct m; try discriminate; unfold pump in H; cbn [sys_step apply_acts] in H; inversion H; subst;
+      exists recs; cbn [e_ideal e_got]; auto.
+  - destruct (nth_error (y_tasks (e_sys e)) t) as [tk |] eqn:Hn; try discriminate.
+    destruct (call E D M (e_ideal e) (t_meth tk) (t_buf tk) (hd [] (deque (y_sh (e_sys e))))) as [[i' o] wd] eqn:C.
+    assert (Hm : t_meth tk <> MUnwrap).
+    { unfold no_unwrap, ep_meths in Hu. rewrite Forall_forall in Hu. apply Hu.
+      apply in_map. eapply nth_error_In; eauto. }
+    destruct (call_recv _ _ _ _ _ _ _ (nin ++ tail) recs Hm C Hs) as [recs' [Hr Hp]].
+    destruct (pump_step_spec _ _ _ _ _ _ _ _ _ _ _ H) as [tk' [Hn' Hspec]].
+    rewrite Hn in Hn'. inversion Hn'; subst tk'. clear Hn'.
+    destruct Hspec as [Hnin [_ [Hg [_ [_ [Hrb [Hpl _]]]]]]].
+    { intros x Hx. inversion Hx; subst. cbn. auto. }
+    exists recs'. subst nin'. cbn [rcvd] in Hrb. rewrite Hrb, app_nil_r, Hpl, Hg. split; [exact Hr |].
+    rewrite <- app_assoc. rewrite Hp. reflexivity.
+  - destruct (pump_step_spec _ _ _ _ _ _ _ _ _ _ _ H) as [tk [Hn Hspec]].
+    destruct Hspec as [Hnin [_ [Hg [_ [_ [Hrb [Hpl _]]]]]]]; [intros x Hx; discriminate |].
+    exists recs. subst nin'. cbn [rcvd] in Hrb. rewrite Hrb, app_nil_r, Hpl, Hg. auto.
+  - destruct (pump_step_spec _ _ _ _ _ _ _ _ _ _ _ H) as [tk [Hn Hspec]].
+    destruct Hspec as [Hnin [_ [Hg [_ [_ [Hrb [Hpl _]]]]]]]; [intros x Hx; discriminate |].
+    exists recs. subst nin'. cbn [rcvd] in Hrb. rewrite Hrb, app_nil_r, Hpl, Hg. auto.
+  - destruct (Nat.leb 1 k && Nat.leb k (length nin)); try discriminate.
+    destruct (pump_step_spec _ _ _ _ _ _ _ _ _ _ _ H) as [tk [Hn Hspec]].
+    destruct Hspec as [Hnin [_ [Hg [_ [_ [Hrb [Hpl _]]]]]]]; [intros x Hx; discriminate |].
+    exists recs. subst nin'. cbn [rcvd] in Hrb. rewrite Hrb, Hpl, Hg. split; [| reflexivity].
+    rewrite <- Hs. rewrite <- !app_assoc. f_equal. rewrite app_assoc, firstn_skipn. reflexivity.
+Qed.
+
+(* ------------------------------------------------------------------ the invariant of one direction *)
+
+(* S sends, R receives, net = bytes in flight from S to R:  the incoming BIO of R, the bytes in flight and the outgoing
+   BIO of S, in this order, are a sequence of WHOLE records; what R has returned, what R keeps decrypted, the payloads of
+   the data records of that stream and the backlog of S, in this order, are exactly what was written at S. *)
+Definition TInv (S R : endpoint) (net : bytes) : Prop :=
+  exists recs,
+    i_rbio (e_ideal R) ++ net ++ ep_wbio S = encs recs /\
+    e_got R ++ i_plain (e_ideal R) ++ data_of recs ++ concat (ep_deque S) = e_written S.
+
+Lemma TInv_sender : forall S R net nin l S' nin' net',
+  ep_step E D M S nin net l = Some (S', nin', net') -> TInv S R net -> TInv S' R net'.
+Proof.
+  intros S R net nin l S' nin' net' H [recs [Hs Hp]].
+  destruct (sender_step _ _ _ _ _ _ _ H) as [newrecs [spawned [Hw [Hd Hf]]]].
+  exists (recs ++ newrecs). split.
+  - rewrite Hf, encs_app, <- Hs. rewrite <- !app_assoc. reflexivity.
+  - rewrite data_of_app, Hw, <- Hp. rewrite <- !app_assoc. rewrite Hd. reflexivity.
+Qed.
+
+Lemma TInv_receiver : forall S R net nout l R' net' nout',
+  no_unwrap R ->
+  ep_step E D M R net nout l = Some (R', net', nout') -> TInv S R net -> TInv S R' net'.
+Proof.
+  intros S R net nout l R' net' nout' Hu H [recs [Hs Hp]].
+  destruct (receiver_step _ _ _ _ _ _ _ (ep_wbio S) recs Hu H Hs) as [recs' [Hs' Hp']].
+  exists recs'. split; [exact Hs' |].
+  rewrite <- Hp. rewrite !app_assoc. f_equal. rewrite <- !app_assoc. exact Hp'.
+Qed.
+
+(* ------------------------------------------------------------------ the composed system *)
+
+Definition DInv (c : duplex) : Prop :=
+  TInv (dA c) (dB c) (nAB c) /\ TInv (dB c) (dA c) (nBA c) /\ no_unwrap (dA c) /\ no_unwrap (dB c).
+
+Lemma DInv_init : DInv duplex0.
+Proof.
+  unfold DInv, duplex0, TInv, no_unwrap. cbn. repeat split; try (exists []; auto); constructor.
+Qed.
+
+Lemma DInv_step : forall c l c', dstep E D M c l = Some c' -> DInv c -> DInv c'.
+Proof.
+  intros c [side cl] c' H [IAB [IBA [UA UB]]]. unfold dstep in H. destruct side.
+  - destruct (ep_step E D M (dA c) (nBA c) (nAB c) cl) as [[[a' nin'] nout'] |] eqn:S; inversion H; subst. cbn.
+    repeat split.
+    + exact (TInv_sender _ _ _ _ _ _ _ _ S IAB).
+    + exact (TInv_receiver _ _ _ _ _ _ _ _ UA S IBA).
+    + exact (no_unwrap_step _ _ _ _ _ _ _ S UA).
+    + exact UB.
+  - destruct (ep_step E D M (dB c) (nAB c) (nBA c) cl) as [[[b' nin'] nout'] |] eqn:S; inversion H; subst. cbn.
+    repeat split.
+    + exact (TInv_receiver _ _ _ _ _ _ _ _ UB S IAB).
+    + exact (TInv_sender _ _ _ _ _ _ _ _ S IBA).
+    + exact UA.
+    + exact (no_unwrap_step _ _ _ _ _ _ _ S UB).
+Qed.
+
+Lemma DInv_exec : forall ls c c', dexec E D M c ls = Some c' -> DInv c -> DInv c'.
+Proof.
+  induction ls as [| l ls IH]; intros c c' H I; cbn in H.
+  - inversion H; subst; exact I.
+  - destruct (dstep E D M c l) as [c1 |] eqn:S; try discriminate. eapply IH; eauto. eapply DInv_step; eauto.
+Qed.
+
+Definition is_prefix (p s : bytes) : Prop := exists rest, p ++ rest = s.
+
+Lemma duplex_transparent : forall ls c,
+  dexec E D M duplex0 ls = Some c ->
+  is_prefix (e_got (dB c)) (e_written (dA c)) /\ is_prefix (e_got (dA c)) (e_written (dB c)).
+Proof.
+  intros ls c H. destruct (DInv_exec _ _ _ H DInv_init) as [[r1 [_ P1]] [[r2 [_ P2]] _]].
+  split; eexists; eassumption.
 Qed.
 
 End DuplexFacts.
